@@ -21,11 +21,11 @@ var rec *vlib.Rec
 func TestMain(m *testing.M) {
 	rec = vlib.Open("C12")
 	rec.Rule("cases = (probe program, OptDebugger on/off, entry point Eval / single-step Debug / REPL ParseEvalPrint, fault kind, fault point k): " +
-		"a compiled hook H called at every basic block of 14 hand-written probe programs (nested calls, defers incl. directly deferred compiled functions, recover, selective re-panic, closures, loops and blocks, " +
+		"a compiled hook H called at every basic block of 16 hand-written probe programs (closure-free func()/func(int)/... frames with plain defers, nested calls, defers incl. directly deferred compiled functions, recover, selective re-panic, closures, loops and blocks, " +
 		"callbacks from sort.Slice / strings.Map / sort.Search, goroutines, methods, deep recursion with defers, panic inside a defer, run-time panics, top-level statements) and of rapid-generated call trees panics on its k-th call, every k enumerated; " +
 		"in single-step mode additionally the debugger aborts at its k-th stop; rapid draws sequences of 2-4 fault points applied to one interpreter. " +
 		"non-trivial = fault point at which a deferred function was pending (hook calls continue after the fault while unwinding) or a panic of the program itself was already in flight (hook id 400-499); distinct = distinct (probe, options, entry, kind, k)")
-	rec.Assume("oracle O6: battery of 45 later evaluations (defer order, recover in and outside defers, named results, closures, recursion, call depth seen by compiled code, run-time panics, callbacks, goroutines, single-step evaluations with a recording debugger, REPL entry with panic trap, declarations made after the abort) and a complete re-run of the probe give the same text in the interpreter that had the aborted evaluation and in a fresh interpreter that received the same definitions and the values of the probe's variables read after the abort")
+	rec.Assume("oracle O6: battery of 48 later evaluations (first of all recover() without a panic in flight swept over all pooled frames and call depths 1..4; defer order, recover in and outside defers, named results, closures, recursion, call depth seen by compiled code, run-time panics, callbacks, goroutines, single-step evaluations with a recording debugger, REPL entry with panic trap, declarations made after the abort) and a complete re-run of the probe give the same text in the interpreter that had the aborted evaluation and in a fresh interpreter that received the same definitions and the values of the probe's variables read after the abort")
 	rec.Assume("execution state asserted directly (exported fields of fast.Run, no hook needed): Run.CurrEnv == nil, EFDefer/EFStartDefer clear, DeferOfFun == nil, no debugger mode unless the evaluation was started in single-step mode; other fields (PanicFun, Signals, Interrupt) are only recorded as labels")
 	rec.Assume("compiled library functions are registered with Interp.DeclFunc instead of import (import runs `go list -export`, ~0.5 s per interpreter)")
 	rec.Assume("single-step evaluation is only used with probes and battery functions that contain no defer statement: single-stepping over a defer statement never terminates on the unchanged tree (defect outside C12, see NOTES.md)")
